@@ -22,3 +22,12 @@ claim("C18", "sibling agreement extracted from MIR (tag/flag/sentinel/field-orde
       " Text round-trip through the LALRPOP grammar, JSON round-trip and byte-identical CASM after round-trip are not decided.",
       "trusted: rustc MIR, fact dumper, extractor shapes in rules/c18.py (fail closed when a shape is not recognised)",
       "DESIGN.md section 4, C18")
+claim("C19", "must-pass-through / control dependence on MIR + field-flow provenance + table agreement (repo tables vs. protocol order file)",
+      "CasmContractClass::from_contract_class_with_debug_info returns Ok only after the class-level checks of the statement (sorted unique "
+      "selectors over all three entry-point lists, constructor shape, entry-point signature shape, builtins from the allowed table in order "
+      "with gas and system last); each entry point's offset derives from start_offset of the statement info indexed by the function's entry "
+      "statement, its selector and builtins from the validated data of the same list; every bytecode word is reduced modulo the prime; the "
+      "builtin order validated is the order the Starknet plugin generates and the protocol defines; segment starts come from function entry "
+      "statements." + DECIDES + " Equality with compilation directly from the compiler's output and hash stability under JSON are not decided.",
+      "trusted: rustc MIR, fact dumper, rules/guards.py; tables/c19_builtin_order.txt is an external specification",
+      "DESIGN.md section 4, C19")
